@@ -641,9 +641,14 @@ package priority
 //@   ensures [C14] frame: len(priorities) > 0 ==> forall k :: (forall j :: 0 <= j && j < len(priorities) ==> priorities[j] != k) ==> (result[k] == old(distribution[k]) && (dom(result, k) <==> old(dom(distribution, k))))
 //@   ensures [C14] increments-non-increasing: (strictlyDesc(priorities) && lsum(priorities, len(priorities)) > 0) ==> (forall a, b :: 0 <= a && a < b && b < len(priorities) ==>
 //@            result[priorities[a]] - old(distribution[priorities[a]]) >= result[priorities[b]] - old(distribution[priorities[b]]))
+//@   ensures [C14] proportional-part-or-truncation: len(priorities) > 0 ==> (forall j :: 1 <= j && j < len(priorities) ==>
+//@            ((result[priorities[j]] - old(distribution[priorities[j]])) == f2u(fround(fmul(fdiv(u2f(dividend), u2f(lsum(priorities, len(priorities)))), u2f(priorities[j])))) || ((result[priorities[j]] - old(distribution[priorities[j]])) < f2u(fround(fmul(fdiv(u2f(dividend), u2f(lsum(priorities, len(priorities)))), u2f(priorities[j])))) && (forall k :: j < k && k < len(priorities) ==> (result[priorities[k]] - old(distribution[priorities[k]])) == 0))))
+//@   ensures [C14] first-priority-gets-its-part-plus-leftover-or-truncation: len(priorities) > 0 ==>
+//@            ((result[priorities[0]] - old(distribution[priorities[0]])) >= f2u(fround(fmul(fdiv(u2f(dividend), u2f(lsum(priorities, len(priorities)))), u2f(priorities[0])))) || (forall k :: 0 < k && k < len(priorities) ==> (result[priorities[k]] - old(distribution[priorities[k]])) == 0))
+//@   ensures [C14] leftover-only-without-truncation: (len(priorities) > 0 && (result[priorities[0]] - old(distribution[priorities[0]])) > f2u(fround(fmul(fdiv(u2f(dividend), u2f(lsum(priorities, len(priorities)))), u2f(priorities[0]))))) ==> (forall j :: 1 <= j && j < len(priorities) ==> (result[priorities[j]] - old(distribution[priorities[j]])) == f2u(fround(fmul(fdiv(u2f(dividend), u2f(lsum(priorities, len(priorities)))), u2f(priorities[j])))))
 //@   loop 0
 //@     invariant [* C14] divider == lsum(priorities, len(priorities)) && base == fdiv(u2f(dividend), u2f(divider))
-//@     invariant [C14] forall j :: 0 <= j && j < $i ==> distribution[priorities[j]] == old(distribution[priorities[j]]) + f2u(fround(fmul(base, u2f(priorities[j]))))
+//@     invariant [C14] forall j :: 0 <= j && j < $i ==> distribution[priorities[j]] == old(distribution[priorities[j]]) + f2u(fround(fmul(fdiv(u2f(dividend), u2f(lsum(priorities, len(priorities)))), u2f(priorities[j]))))
 //@     invariant [C14] forall j :: $i <= j && j < len(priorities) ==> distribution[priorities[j]] == old(distribution[priorities[j]])
 //@     invariant [* C14] msum(distribution) + remainder == old(msum(distribution)) + dividend && remainder <= dividend
 //@     invariant [* C14] forall k :: (forall j :: 0 <= j && j < $i ==> priorities[j] != k) ==> (distribution[k] == old(distribution[k]) && (dom(distribution, k) <==> old(dom(distribution, k))))
